@@ -15,6 +15,8 @@
           | b dt_ns pair_index status g cluster n name_index*n   a response whose first Notify call blocks while a group list
           | b dt_ns pair_index status c n { cluster m name_index*m }*n   / a refresh cycle arrives: the refresh waits for the write
                                                             lock -> HResponse, then the refresh events
+          | o dt_ns pair_index status                       like r, but the first Notify call is slow and the next step (an r step
+                                                            for the same pair, dt 0) is delivered meanwhile -> HResponse
           | s dt_ns n cluster*n                             a refresh cycle whose storage requests time out (nobody takes
                                                             them off the storage channel within a second): n = -1 - the
                                                             cluster-list request, nothing happens -> no event;
@@ -83,7 +85,9 @@ let hist (fixed : bool) t : string =
   (* one case-line step = one or more model events; the calls of the step are those of its events *)
   let steps : nevent list list = rep ns (fun () ->
     match next t with
-    | "r" ->
+    | "r" | "o" ->
+        (* o: the next step (a response for the same group) arrives while this one is being handed to the modules; the
+           hypothesis of the tie is that the two are handled one after the other *)
         let now = tick () in
         let p = next_int t in
         let status = next_z t in
